@@ -200,6 +200,8 @@ load_rsa(long bits)
 	switch (bits) {
 	case 512:  fn = "k512_e65537.der"; pubexp = 65537; break;
 	case 768:  fn = "k768_e17.der"; pubexp = 17; break;
+	case 992:  fn = "k992_e65537.der"; pubexp = 65537; break;     /* factors of 496 = 16 * 31 bits: full top word in the 31-bit code */
+	case 1860: fn = "k1860_e65537.der"; pubexp = 65537; break;    /* factors of 930 = 30 * 31 = 62 * 15 bits: full top word in the 15- and 31-bit code */
 	case 1016: fn = "k1016_e65537.der"; pubexp = 65537; break;
 	case 1017: fn = "k1017_e3.der"; pubexp = 3; break;
 	case 1024: fn = "k1024_e65537_m3.der"; pubexp = 65537; break;
